@@ -129,6 +129,8 @@ pub fn library_entries() -> Vec<TypeEntry> {
         entry!(std::io::Error, nointro),
         entry!(chrono::DateTime<chrono::Utc>),
         entry!(savefile::Canary1),
+        entry!(Vec<savefile::Canary1>),
+        entry!((Vec<savefile::Canary1>, u32)),
     ];
     for e in v.iter_mut() {
         e.tags = &["library"];
